@@ -36,3 +36,25 @@ func (s *Service) VerifC37GroupsWithPeers() (known, joined [][]byte) {
 	}
 	return
 }
+
+// VerifC37Discover sets the membership targets of the joined group gid and runs one
+// synchronous discovery round for it (discover -> doFindGroup -> getGroupNode on its members,
+// g.add of what they answer, HandshakeAllPeers on the known members): the node's client-side reads.
+func (s *Service) VerifC37Discover(gid boson.Address, keepPing int) bool {
+	g := s.getGroup(gid)
+	if g == nil {
+		return false
+	}
+	g.option.KeepPingPeers = keepPing
+	s.discover(g)
+	return true
+}
+
+// VerifC37GroupSizes returns the member counts (connected, kept, known) of a group.
+func (s *Service) VerifC37GroupSizes(gid boson.Address) (int, int, int) {
+	g := s.getGroup(gid)
+	if g == nil {
+		return -1, -1, -1
+	}
+	return g.connectedPeers.Length(), g.keepPeers.Length(), g.knownPeers.Length()
+}
